@@ -173,9 +173,9 @@ func c39Build(rt *rapid.T, kp *keyPool, k *tkey, anomaly string) *c39File {
 	var salt []byte
 	rounds := 1
 	switch rapid.IntRange(0, 9).Draw(rt, "enc") {
-	case 0, 1:
+	case 7, 8:
 		f.cipher = "aes256-ctr"
-	case 2:
+	case 6:
 		f.cipher = "aes256-cbc"
 	default:
 		f.cipher = "none"
@@ -453,12 +453,12 @@ func c39Constructed(rt *rapid.T, c *ev.Collector, kp *keyPool) {
 				rt.Fatalf("VF-INCONCLUSIVE: %v", cerr)
 			}
 			what := fmt.Sprintf("%s key file with anomaly %q (cipher %s) is accepted but inconsistent: %v", typ, anomaly, f.cipher, cerr)
-			if _, listed := ev.IsKnownFinding("F9"); listed && group == "ecdsa" && anomaly == "d-negative" && strings.HasPrefix(cerr.Error(), "UNUSABLE:") {
-				// F9: a negative private scalar -d passes the Q == dG check (which
+			if _, listed := ev.IsKnownFinding("F91"); listed && group == "ecdsa" && anomaly == "d-negative" && strings.HasPrefix(cerr.Error(), "UNUSABLE:") {
+				// F91: a negative private scalar -d passes the Q == dG check (which
 				// uses |d|); the returned key has D < 0 and cannot sign
 				c.Excluded()
-				c.Known("F9 ParseRawPrivateKey accepts an OpenSSH ECDSA key file whose private scalar is negative (-d passes the point check through |d|); the returned key cannot sign")
-				c.Case(true, "F9|"+typ, append(classes, "result=known-F9")...)
+				c.Known("F91 ParseRawPrivateKey accepts an OpenSSH ECDSA key file whose private scalar is negative (-d passes the point check through |d|); the returned key cannot sign")
+				c.Case(true, "F91|"+typ, append(classes, "result=known-F91")...)
 				return
 			}
 			if _, listed := ev.IsKnownFinding("F5"); listed && c39F5Class[anomaly] {
